@@ -48,6 +48,21 @@ class VwSlots:
         self.b = b
         self._p = "private"
 
+class VwSlotsPos:
+    """slots-only, and the constructor's parameters do not name the fields: the declared
+    order of __slots__ is the only order there is"""
+    __slots__ = ("x", "y", "zed", "w", "_p", "kappa")
+    def __init__(self, *args):
+        self.x, self.y = args[0], args[1]
+        self.zed, self.w, self.kappa = 3, "w", None
+        self._p = "private"
+
+class VwSlotsPosSub(VwSlotsPos):
+    __slots__ = ("extra",)
+    def __init__(self, *args):
+        super().__init__(*args)
+        self.extra = "e"
+
 class VwVars:
     def __init__(self, a, b=None):
         self.a = a
@@ -99,11 +114,11 @@ class VwSame:
         self.y = b
 '''
 
-CLASSES = ["VwDC", "VwNT", "VwNT1", "VwPlain", "VwPlainCV", "VwSlots", "VwVars", "VwVarsDyn", "VwVarsDyn", "vw0same", "vw1same"]
+CLASSES = ["VwDC", "VwNT", "VwNT1", "VwPlain", "VwPlainCV", "VwSlots", "VwSlotsPos", "VwSlotsPos", "VwVars", "VwVarsDyn", "VwVarsDyn", "vw0same", "vw1same"]
 # expected public (field, attribute) names per class, in order
 PUBLIC = {
     "VwDC": ["a", "b"], "VwNT": ["first", "second"], "VwNT1": ["only"], "VwPlain": ["a", "b"], "VwPlainCV": ["a"],
-    "VwSlots": ["a", "b"], "VwVars": ["a", "b"], "vw0same": ["a"], "vw1same": ["z", "y"],
+    "VwSlots": ["a", "b"], "VwSlotsPos": ["x", "y", "zed", "w", "kappa"], "VwVars": ["a", "b"], "vw0same": ["a"], "vw1same": ["z", "y"],
 }
 
 
@@ -273,6 +288,8 @@ class C18(PropBase):
             else:
                 names = PUBLIC[cname]
                 vals = {"a": a, "b": b, "first": a, "second": b, "only": a, "z": a, "y": b}
+                if cname == "VwSlotsPos":
+                    vals = {"x": a, "y": b, "zed": 3, "w": "w", "kappa": None}
                 items = [(nm, vals[nm]) for nm in names]
             return x, items, [v for _, v in items], {"reiterable": True, "struct": True}
         if kind in ("list", "tuple", "deque", "set", "frozenset"):
